@@ -5,20 +5,29 @@
 //!   and the `cosim_set` / `cosim_get` DPI entry points against IEEE 1800
 //!   Annex H (per bit (aval,bval): 0→(0,0) 1→(1,0) Z→(0,1) X→(1,1)).
 //! * `wave`    — waveform dumps (VCD/FST) record the values the simulator
-//!   holds: NOT WRITTEN YET.  Add `mod wave;` below, give it a
-//!   `pub fn run(ctx: &Ctx)` that only calls `ctx.run / ctx.record / ctx.note /
-//!   ctx.assume` (no `ctx.finish`), and call it from `run` next to `svlogic`.
+//!   holds at each dumped time (generated designs × stimulus × engine ×
+//!   driving protocol; own VCD parser, `fst-reader` for FST).
+//!
+//! Development aid: `C36_ONLY=svlogic|wave` runs one sub-check.
 
 use vcore::Ctx;
 
 mod svlogic;
-// mod wave;
+mod wave;
+
+pub use wave::fst_info;
 
 pub fn run(ctx: &Ctx) {
-    svlogic::run(ctx);
-    // wave::run(ctx);
+    let only = std::env::var("C36_ONLY").ok();
+    if only.as_deref() != Some("wave") {
+        svlogic::run(ctx);
+    }
+    if only.as_deref() != Some("svlogic") {
+        wave::run(ctx);
+    }
     ctx.finish(
         "exploration",
-        "svlogic: every width 1..300 with all-0/all-1/all-X/all-Z and single-bit walks (enumerated), then generated 4-state values with widths around multiples of 32 over-weighted, through the two From impls and through cosim_set/cosim_get of the real cdylib; non-trivial = width > 64 or an X/Z bit present; distinct by (width, value)",
+        "svlogic: every width 1..300 with all-0/all-1/all-X/all-Z and single-bit walks (enumerated), then generated 4-state values with widths around multiples of 32 over-weighted, through the two From impls and through cosim_set/cosim_get of the real cdylib; non-trivial = width > 64 or an X/Z bit present; distinct by (width, value). \
+         wave: vdesign designs (hierarchy, arrays, structs, signed, widths 1..300) x stimulus of 10-16 cycles after a reset window (X/Z bits on the inputs under 4-state engines) x one engine of Config::all() (cc on 1/10) x protocol (unit-test `step; time += dt` or native-testbench clock toggling with two dumps per cycle) x attachment (Simulator::new / attach_dump), dumped to VCD (memory) and FST (scratch file) and compared at every dump time with the simulator's storage and with a run without a dumper; non-trivial = a variable wider than 64 bits or an X/Z value in the dump, and at least 10 dump times; distinct by text + stimulus + engine/protocol",
     );
 }
